@@ -107,3 +107,9 @@ Definition live_blocks (h : heap) : nat :=
   length (filter (fun b => match b with Some _ => true | None => false end) (blocks h)).
 Definition vfinal_ok (s : vstate) : bool :=
   negb (hbad (vfinal s)) && (live_blocks (vfinal s) =? 0).
+
+(** number of element objects currently alive = total length of the live blocks (new T[n] constructs n, delete[] destroys n) *)
+Definition live_elems (h : heap) : nat :=
+  fold_left (fun a b => a + match b with Some l => length l | None => 0 end) (blocks h) 0.
+(** what the class reports as stored *)
+Definition stored_elems (s : vstate) : nat := fold_left (fun a v => a + ssize v) (vvars s) 0.
